@@ -51,6 +51,25 @@ interval J of base draws  |#(grid in J)/N - P(J)| <= 1/N.
 * exact comparisons: history independence (bit-identical logpdf values),
   parameters that should not move, reported symmetric values (1e-9 relative:
   the two orders evaluate the same formula at arguments equal up to rounding).
+
+What counts as a failing input
+------------------------------
+The property is about the Hastings factor.  Hence
+* a reported density that is a *constant* multiple of the jump law is accepted (the constant
+  is measured and must be the same from two different from-points; it is listed in the notes:
+  `Angular` with n parameters reports pi^(n-1) times the law);
+* for a family that declares itself symmetric a reported density of another *shape* than the
+  law is not a violation by itself: the mismatch is held back and decided on the measured law
+  alone (displacements distributed evenly about 0 and identically from both from-points, for
+  the sphere: same distance law from both from-points and uniform azimuth); if that holds and
+  the reported values are symmetric the Hastings factor is unaffected (note), otherwise the
+  finding is `<family>:symmetric-law`;
+* for the eigenvector families the constant may differ between eigen-directions (a jump and
+  its reverse share the direction).
+Keys of findings name the family and the kind of failure; three call-site keys exist for
+defects found on the pinned tree: `cdfcache-one-dict-shared-by-all-parameters` (set in
+props/C02.py), `BoundedEigenvector:isclose-band-not-in-reported-density` and
+`BoundedEigenvector:nan-density-outside-box`.
 """
 import contextlib
 import copy
